@@ -192,7 +192,16 @@ class C12(EnumCheck):
         d = tempfile.mkdtemp(dir=workdir)
         session: dict = {}
         try:
-            out = execute(sc, Choices(seed='c12'), d, session=session)
+            built = None
+            if cfg['mode'] == 'overwrite':
+                # the session first sees the existing entry (a cache hit through the same Lab / storage / cache
+                # objects), then re-executes it with bust_cache and the save fails
+                sc0 = {k: v for k, v in sc.items() if k not in ('bust_cache', 'io_fault', 'inject_line')}
+                out0 = execute(sc0, Choices(seed='c12hit'), d, session=session)
+                built = out0.built
+                sc = dict(sc)
+                sc['skip_warm'] = True
+            out = execute(sc, Choices(seed='c12'), d, built=built, session=session)
             fired = bool(out.fault_counts.get('io-error') or out.fault_counts.get('line-exception'))
             intrinsic = cfg['shape'] == 'unpicklable'
             where = {'fault': f['kind'] if f['kind'] != 'none' else ('unpicklable-result' if intrinsic else 'none')}
